@@ -241,7 +241,11 @@ def sanitiser_rule(chk, prog, sinks):
                                   "path by %s without the get_path + canonicalize_name funnel" % (o.a, o.b, what))
             elif o.kind == "outparam":
                 n += 1
-                chk.violation("K1-sanitise", inst, c, "path produced by %s reaches %s outside the sanitising funnel" % (o.a, what))
+                if _funnel_helper(prog, f, o):
+                    chk.ok("K1-sanitise", inst, c, "path from %s, a helper that hands out what sqfs_tree_node_get_path produced after "
+                           "canonicalize_name on the same buffer, on every success return" % o.a)
+                else:
+                    chk.violation("K1-sanitise", inst, c, "path produced by %s reaches %s outside the sanitising funnel" % (o.a, what))
             elif o.kind in ("call", "global", "deref-param", "other", "local-buffer", "uninit"):
                 n += 1
                 if o.kind == "call" and o.a in ("strdup", "malloc", "calloc"):
@@ -249,6 +253,41 @@ def sanitiser_rule(chk, prog, sinks):
                 else:
                     chk.violation("K1-sanitise", inst, c, "path of unclassified provenance (%r) reaches %s" % (o, what))
     return n
+
+
+def _funnel_helper(prog, f, o):
+    """the out-parameter was filled by a function of the program that passes it straight to sqfs_tree_node_get_path and
+    reaches a success return only behind canonicalize_name on what it points to"""
+    call = o.site
+    if call is None or not getattr(call, "callee", None):
+        return False
+    h = prog.fn(call.callee, f.unit)
+    if h is None or h.decl:
+        return False
+    ks = [k for k, a in enumerate(call.ops) if strip_casts(a) is o.b]
+    if len(ks) != 1 or ks[0] >= len(h.params):
+        return False
+    par = h.build().params[ks[0]]
+    gets = [c for c in h.calls("sqfs_tree_node_get_path") if len(c.ops) >= 2 and strip_casts(c.ops[1]) is par]
+    if not gets:
+        return False
+    cans = [c for c in h.calls("canonicalize_name") if strip_casts(c.ops[0]).is_inst and strip_casts(c.ops[0]).op == "load" and
+            strip_casts(strip_casts(c.ops[0]).ops[0]) is par]
+    if not cans:
+        return False
+    from ..errflow import ret_sources
+    zero = [b for (v, b) in ret_sources(h) if strip_casts(v).is_const and strip_casts(v).is_int and strip_casts(v).sval == 0]
+    nonconst = [b for (v, b) in ret_sources(h) if not strip_casts(v).is_const]
+    if not zero or nonconst:
+        return False
+    for b in zero:
+        if not any(h.dominates(cn.bb, b) and any(h.inst_dominates(g, cn) for g in gets) for cn in cans):
+            return False
+    # nothing else writes through the parameter
+    for i in h.insts():
+        if i.op == "store" and strip_casts(i.ops[1]) is par:
+            return False
+    return True
 
 
 def flags_rule(chk, prog, mset):
